@@ -37,7 +37,8 @@ Inductive stream_result (C T : Type) :=
 Arguments SDone {C T}. Arguments SEnv {C T}.
 
 (* the download loop of stream(): Next, stop on an empty chunk, write, stop on a short chunk *)
-Fixpoint stream_loop {C T} (get : nat -> C) (cempty clast : C -> bool) (tag : T)
+(* [tag i]: the type the schema attaches to its answer for block i (an honest server uses one type) *)
+Fixpoint stream_loop {C T} (get : nat -> C) (cempty clast : C -> bool) (tag : nat -> T)
          (fuel : nat) (i : nat) (env : list bool) : stream_result C T :=
   match fuel with
   | O => SEnv []
@@ -47,8 +48,8 @@ Fixpoint stream_loop {C T} (get : nat -> C) (cempty clast : C -> bool) (tag : T)
       | Some (env', retries) =>
           let reqs := repeat i (S retries) in
           let data := get i in
-          if cempty data then SDone [] tag [i] reqs
-          else if clast data then SDone [data] tag [i] reqs
+          if cempty data then SDone [] (tag i) [i] reqs
+          else if clast data then SDone [data] (tag i) [i] reqs
           else match stream_loop get cempty clast tag f (S i) env' with
                | SDone w t o r => SDone (data :: w) t (i :: o) (reqs ++ r)
                | SEnv w => SEnv (data :: w)
@@ -94,12 +95,13 @@ Fixpoint set_nth {B} (i : nat) (x : B) (l : list B) : list B :=
 Section Par.
 Context {T : Type}.
 Variable bempty blast : nat -> bool.   (* block i is empty / shorter than the part size *)
-Variable tag : T.
+Variable tag : nat -> T.               (* type attached to the answer for block i *)
 Variable threads : nat.
 
-Definition p_stop (s : pstate T) (ws : list wstate) (q : list nat) : pstate T :=
+(* stop(b.tag): typOnce keeps the FIRST type *)
+Definition p_stop (i : nat) (s : pstate T) (ws : list wstate) (q : list nat) : pstate T :=
   {| p_next := p_next s; p_workers := ws; p_ready := true;
-     p_typ := match p_typ s with Some t => Some t | None => Some tag end;
+     p_typ := match p_typ s with Some t => Some t | None => Some (tag i) end;
      p_queue := q; p_written := p_written s |}.
 
 Definition p_set (s : pstate T) (nx : nat) (ws : list wstate) (q : list nat) : pstate T :=
@@ -123,7 +125,7 @@ Definition p_step (s : pstate T) (e : pevent) : pstate T :=
   | PSend w =>
       match nth_error (p_workers s) w with
       | Some (WHold i) =>
-          if bempty i then p_stop s (set_nth w WExit (p_workers s)) (p_queue s)
+          if bempty i then p_stop i s (set_nth w WExit (p_workers s)) (p_queue s)
           else if Nat.ltb (length (p_queue s)) threads then
             p_set s (p_next s) (set_nth w (WSent i) (p_workers s)) (p_queue s ++ [i])
           else s
@@ -132,7 +134,7 @@ Definition p_step (s : pstate T) (e : pevent) : pstate T :=
   | PAfter w =>
       match nth_error (p_workers s) w with
       | Some (WSent i) =>
-          if blast i then p_stop s (set_nth w WExit (p_workers s)) (p_queue s)
+          if blast i then p_stop i s (set_nth w WExit (p_workers s)) (p_queue s)
           else p_set s (p_next s) (set_nth w WIdle (p_workers s)) (p_queue s)
       | _ => s
       end
